@@ -16,7 +16,7 @@ from glue.core.message import (DataUpdateMessage, DataRemoveComponentMessage,
                                ComponentReplacedMessage, DataReorderComponentMessage,
                                ExternallyDerivableComponentsChangedMessage,
                                PixelAlignedDataChangedMessage)
-from glue.core.decorators import clear_cache
+from glue.core.decorators import clear_all_caches
 from glue.core.util import split_component_view
 from glue.core.hub import Hub
 from glue.core.subset import Subset, SubsetState, SliceSubsetState
@@ -656,6 +656,9 @@ class BaseCartesianData(BaseData, metaclass=abc.ABCMeta):
                 return  # Unchanged!
 
         self._externally_derivable_components = derivable_components
+
+        # Cached masks may have been computed through links that have changed
+        clear_all_caches()
 
         if self.hub:
             msg = ExternallyDerivableComponentsChangedMessage(self)
@@ -1566,13 +1569,16 @@ class Data(BaseCartesianData):
         for comp, data in updates:
             comp._data = data
 
+        # Masks are cached by subset state, data and view, and a subset state
+        # can be nested inside others, used on its own or used for a linked
+        # dataset, so all cached masks have to be dropped - and this has to be
+        # done before anyone is told about the change.
+        clear_all_caches()
+
         # alert hub of the change
         if self.hub is not None:
             msg = NumericalDataChangedMessage(self, components_changed=list(mapping.keys()))
             self.hub.broadcast(msg)
-
-        for subset in self.subsets:
-            clear_cache(subset.subset_state.to_mask)
 
     def update_values_from_data(self, data):
         """
@@ -1658,13 +1664,14 @@ class Data(BaseCartesianData):
         # Update data coordinates
         self.coords = data.coords
 
+        # Drop all cached masks (see update_components) before anyone is told
+        # about the change
+        clear_all_caches()
+
         # alert hub of the change
         if self.hub is not None:
             msg = NumericalDataChangedMessage(self)
             self.hub.broadcast(msg)
-
-        for subset in self.subsets:
-            clear_cache(subset.subset_state.to_mask)
 
     # The following are methods for accessing the data in various ways that
     # can be overriden by subclasses that want to improve performance.
